@@ -245,8 +245,9 @@ def t_norm(u, name, seed):
     if name == "whitespace":
         return rnd.choice([" ", "\t", "\n", "  ", "\x0b"]) + u + rnd.choice([" ", "\n", "\r\n", ""])
     if name == "control":
-        i = rnd.randint(0, len(u))
-        return u[:i] + rnd.choice(["\x00", "\x07", "\x1f", "\x7f", "\x85"]) + u[i:]
+        # "surrounding whitespace or control characters" (C04's wording): at either end
+        c = rnd.choice(["\x00", "\x07", "\x1f", "\x7f", "\x85"])
+        return c + u if rnd.random() < 0.5 else u + c
     return None
 
 
